@@ -179,6 +179,9 @@ class CallMixin:
                 except TypeError:
                     ck = None
                 if ck is not None and all(x is not None for x in ck[2]) and all(v is not None for _k, v in ck[3]):
+                    if ck in self.modcache and getattr(fv, 'bounded', False) and \
+                            self.choose(2, f'lru_cache of {fv.fi.name}: hit / evicted') == 1:
+                        del self.modcache[ck]      # a bounded lru_cache forgets
                     if ck not in self.modcache:
                         r = self.call_value(fv.memo, args, kwargs, node)
                         if isinstance(r, (DictV, ListV, ObjV)):
